@@ -530,7 +530,8 @@ func variants(c *hx.Ctx, text string) {
 }
 
 func corpus(c *hx.Ctx) {
-	// the repo's own unparse test inputs, and shapes behind the fixes/C20-*.patch
+	// the repo's own unparse test inputs, shapes behind the fixes/C20-*.patch, and the latlng-span finding
+	// ("find (intersecting 19.4008, -99.1663)": the point and the calls ending in it have End = 0)
 	for _, t := range []string{"42", "/w/140633010", "[#amenity=cafe]", "[#amenity=cafe | #amenity=restaurant]", "area (find-feature /a/427900370)",
 		"find-feature /a/427900370 | area", "find [#place=uprn] | filter {u -> gt (all-tags u | count) 1}",
 		"add-collection /collection/test/0 (collection) (find [#boundary=ward])", "find (intersecting 19.4008, -99.1663)",
